@@ -8,12 +8,14 @@ CONSTANTS
   Ctl <- C_ping_close
   Closer = TRUE
   Rd <- R_none
+  Fault <- F_none
   ControlTakesLock = FALSE
   FlushAtomic = TRUE
   LatchChecked = TRUE
   CloseLatches = TRUE
   TimeoutReleases = FALSE
   HandlerControlPath = TRUE
+  TimeoutFaultLatches = TRUE
   Fifo = TRUE
   OnlyBad = TRUE
   Family = "atk_nolock"
